@@ -137,25 +137,7 @@ func c19Run(c *core.Ctx) {
 		res.Nondet = append(res.Nondet, "C19 must run in the -race build (bin/check builds it)")
 		return
 	}
-	var scs []*core.Scenario
-	for _, s := range sqlScenarios("C04", c.Thorough()) {
-		scs = append(scs, s.build("C19"))
-	}
-	for _, s := range sqlScenarios("C05", c.Thorough()) {
-		scs = append(scs, s.build("C19"))
-	}
-	for _, s := range sqlScenarios("C19", c.Thorough()) {
-		scs = append(scs, s.build("C19"))
-	}
-	for _, s := range c12Scenarios(false) {
-		scs = append(scs, s.build(1))
-	}
-	for _, s := range c17Scenarios(false) {
-		if strings.HasPrefix(s.Name, "skip:") || c.Thorough() {
-			scs = append(scs, s.build(1))
-		}
-	}
-	scs = append(scs, c19Maintenance())
+	scs := c19Scenarios(c.Thorough())
 	bound := 1
 	if c.Thorough() {
 		bound = 2
@@ -163,53 +145,69 @@ func c19Run(c *core.Ctx) {
 	res.Bound["scenarios"] = len(scs)
 	res.Bound["preemption_bound"] = bound
 	before := vsched.RaceErrors()
+	seen := map[string]bool{}
+	var outOfScope []string
+	logOff := map[string]int{}
+	// harvest reads what the detector appended to its log since the last call and files every new report
+	// under the schedule that produced it
+	harvest := func(scName string, choices []int) {
+		logs, _ := filepath.Glob(os.Getenv("VERIF_RACE_LOG") + "*")
+		for _, lf := range logs {
+			b, _ := os.ReadFile(lf)
+			if len(b) <= logOff[lf] {
+				continue
+			}
+			text := string(b[logOff[lf]:])
+			// keep an unfinished report for the next round
+			if i := strings.LastIndex(text, "=================="); i >= 0 {
+				text = text[:i+18]
+			}
+			logOff[lf] += len(text)
+			for _, r := range parseRaceLog(text) {
+				sig := "race/" + r.a + "<>" + r.b
+				if seen[sig] {
+					continue
+				}
+				seen[sig] = true
+				if c19InScope(r.fa) && c19InScope(r.fb) {
+					res.Outcome("data-path-race:" + r.a + "<>" + r.b)
+					res.Violate(&core.Violation{Property: "C19", Signature: strings.ReplaceAll(sig, " ", ""),
+						Detail: fmt.Sprintf("unsynchronised accesses in %s (%s) and %s (%s)\nscenario %s, schedule %v\n%s", r.a, r.fa, r.b, r.fb, scName, choices, firstN(r.text, 1800)),
+						Replay: map[string]any{"sites": []string{r.a, r.b}, "scenario": scName, "choices": choices, "thorough": c.Thorough()}})
+				} else {
+					outOfScope = append(outOfScope, fmt.Sprintf("%s (%s) <> %s (%s)", r.a, r.fa, r.b, r.fb))
+				}
+			}
+		}
+	}
 	for _, sc := range scs {
 		if c.Expired() {
 			break
 		}
+		sc := sc
 		sc.Bound = bound
 		if sc.FreeBound == 0 && strings.HasPrefix(sc.Name, "c12/") {
 			sc.FreeBound = 2
 		}
 		// the functional oracle of the scenario is not C19's business: only races are
 		inner := sc.Setup
+		last := vsched.RaceErrors()
 		sc.Setup = func() *core.Harness {
 			h := inner()
-			chk := h.Check
 			h.Check = func(x *core.ExecInfo) (*core.Violation, string) {
-				_, out := chk(x)
-				if len(out) > 40 {
-					out = out[:40]
+				if n := vsched.RaceErrors(); n != last {
+					last = n
+					harvest(sc.Name, x.Choices)
+					return nil, "race-reported"
 				}
-				return nil, fmt.Sprintf("races-so-far=%d", vsched.RaceErrors()-before)
+				return nil, "no-race"
 			}
 			return h
 		}
 		core.ExploreSched(c, sc)
 	}
+	harvest("(end of run)", nil)
 	res.Extra["race_reports_raw"] = float64(vsched.RaceErrors() - before)
-	// the detector writes its reports to the log file named by GORACE log_path
-	logs, _ := filepath.Glob(os.Getenv("VERIF_RACE_LOG") + "*")
-	seen := map[string]bool{}
-	var outOfScope []string
-	for _, lf := range logs {
-		b, _ := os.ReadFile(lf)
-		for _, r := range parseRaceLog(string(b)) {
-			sig := "race/" + r.a + "<>" + r.b
-			if seen[sig] {
-				continue
-			}
-			seen[sig] = true
-			if c19InScope(r.fa) && c19InScope(r.fb) {
-				res.Outcome("data-path-race:" + r.a + "<>" + r.b)
-				res.Violate(&core.Violation{Property: "C19", Signature: strings.ReplaceAll(sig, " ", ""),
-					Detail: fmt.Sprintf("unsynchronised accesses in %s (%s) and %s (%s)\n%s", r.a, r.fa, r.b, r.fb, firstN(r.text, 1800)),
-					Replay: map[string]any{"sites": []string{r.a, r.b}}})
-			} else {
-				outOfScope = append(outOfScope, fmt.Sprintf("%s (%s) <> %s (%s)", r.a, r.fa, r.b, r.fb))
-			}
-		}
-	}
 	sort.Strings(outOfScope)
 	if len(outOfScope) > 0 {
 		res.Extra["races_outside_the_data_path_shard"+fmt.Sprint(c.Shard)] = outOfScope
@@ -217,6 +215,29 @@ func c19Run(c *core.Ctx) {
 	if len(seen) == 0 {
 		res.Outcome("no-race-reported")
 	}
+}
+
+// c19Scenarios lists the scenarios of a tier (shared by the run and the replay).
+func c19Scenarios(thorough bool) []*core.Scenario {
+	var scs []*core.Scenario
+	for _, s := range sqlScenarios("C04", thorough) {
+		scs = append(scs, s.build("C19"))
+	}
+	for _, s := range sqlScenarios("C05", thorough) {
+		scs = append(scs, s.build("C19"))
+	}
+	for _, s := range sqlScenarios("C19", thorough) {
+		scs = append(scs, s.build("C19"))
+	}
+	for _, s := range c12Scenarios(false) {
+		scs = append(scs, s.build(1))
+	}
+	for _, s := range c17Scenarios(false) {
+		if strings.HasPrefix(s.Name, "skip:") || thorough {
+			scs = append(scs, s.build(1))
+		}
+	}
+	return append(scs, c19Maintenance())
 }
 
 func init() {
@@ -240,7 +261,29 @@ func init() {
 		},
 		Run: c19Run,
 		Replay: func(raw json.RawMessage) (string, bool) {
-			return "C19 findings are pairs of access sites; re-run the check to see whether the pair is still reported: " + string(raw), false
+			var rp struct {
+				Sites    []string `json:"sites"`
+				Scenario string   `json:"scenario"`
+				Choices  []int    `json:"choices"`
+				Thorough bool     `json:"thorough"`
+			}
+			json.Unmarshal(raw, &rp)
+			if !vsched.RaceBuild {
+				return "C19 replays need the -race build: bin/replay uses it automatically", false
+			}
+			for _, sc := range c19Scenarios(rp.Thorough) {
+				if sc.Name != rp.Scenario {
+					continue
+				}
+				if strings.HasPrefix(sc.Name, "c12/") {
+					sc.FreeBound = 2
+				}
+				before := vsched.RaceErrors()
+				x, _, _, div := core.RunSchedule(sc, rp.Choices)
+				n := vsched.RaceErrors() - before
+				return fmt.Sprintf("scenario %s, schedule of %d points %s: the race detector reported %d race(s) (expected sites %v; the reports are on stderr)", sc.Name, len(x.Trace), div, n, rp.Sites), n > 0
+			}
+			return "scenario not found: " + rp.Scenario, false
 		},
 	})
 }
